@@ -19,15 +19,15 @@ MANIFEST = {
             "method, tearDown, cleanups, each a sequence of assertThat/expectThat/assert_that and raise statements): "
             "assertions raise iff the matcher mismatches, expectThat never raises and forces a failure after the test "
             "has finished whatever the test raises before or afterwards (skip, expected failure, unexpected success, "
-            "error; known finding F21 when setUp itself raises), every mismatch "
+            "error, setUp itself raising included), every mismatch "
             "detail is attached under a fresh name (pigeonhole termination of the unique-name loop). Tied to /repo "
             "on every run by differential execution inside coqc; str()/describe()/get_details()/MismatchError of "
             "every name in testtools.matchers.__all__ are sampled.",
-    "note": "PARTIAL: (1) 'describe() never raises for any matchee' for leaves built on repr/pformat/% of arbitrary "
+    "note": "PARTIAL: 'describe() never raises for any matchee' for leaves built on repr/pformat/% of arbitrary "
             "user objects is not expressible in the model; str/describe/get_details/MismatchError are validated by "
             "sampling over every exported matcher (a name without a harness entry is reported as unmodelled). "
-            "(2) known finding F21: an expectThat that mismatches in a setUp that then raises (or in a cleanup run "
-            "after setUp raised) does not fail the test; C07_holds is proved outside Spec.C07.finding_F21. Trusted: Coq kernel + vm_compute, the harness, "
+            "No known finding (F21, a failed expectThat in a setUp that then raises, was repaired by /repo 889980a). "
+            "Trusted: Coq kernel + vm_compute, the harness, "
             "unicodedata categories as the isprintable oracle.",
     "technique": "Coq proof (induction over characters, pigeonhole for the unique-name loop) + model/implementation "
                  "correspondence in coqc + sampling of every exported matcher",
